@@ -381,7 +381,18 @@ func Merge(rs []*Result) *Result {
 			}
 		}
 		m.ViolationsCut += r.ViolationsCut
-		m.Notes = append(m.Notes, r.Notes...)
+		for _, n := range r.Notes { // every worker writes the same notes: keep one copy
+			dup := false
+			for _, o := range m.Notes {
+				if o == n {
+					dup = true
+					break
+				}
+			}
+			if !dup {
+				m.Notes = append(m.Notes, n)
+			}
+		}
 		m.HarnessErrors = append(m.HarnessErrors, r.HarnessErrors...)
 	}
 	for h := range out {
